@@ -117,6 +117,12 @@ def harness_for(cfg):
             mm = b.as_memory_map()
         except ValueError:
             E.observe("build-refused")
+            # asking again must refuse again, not hand out a half-built map
+            try:
+                b.as_memory_map()
+                E.prove(False, "a layout that was rejected is silently accepted on the second as_memory_map() call")
+            except ValueError:
+                pass
             return
         E.observe("built")
         # a frozen builder accepts no further registers
